@@ -74,11 +74,13 @@ Definition start_nodes (s : elabel) (nx : nat) := fresh_nodes nx (l_type s).
 Definition start_edge (s : elabel) (nx : nat) := mkEdge (Fresh (nx + length (l_type s))) s (start_nodes s nx).
 
 Lemma start_graph_explicit : forall s nx,
-  start_graph_model s nx = (mkGraph (start_nodes s nx) [start_edge s nx] [] [s], S (nx + length (l_type s)), start_edge s nx).
+  start_graph_model s nx = (mkGraph (start_nodes s nx) [start_edge s nx] [] [s] (add_nlabs [] (l_type s)),
+                            S (nx + length (l_type s)), start_edge s nx).
 Proof.
   intros. unfold start_graph_model, start_edge, start_nodes, add_edge.
   cbn [has_edge_id empty_graph g_edges g_elabs existsb e_att e_label e_id label_clash find_label].
   rewrite check_new_nodes_fresh by (simpl; tauto).
+  cbn [app g_nlabs g_nodes g_edges g_ext g_elabs]. rewrite fresh_nodes_labels.
   reflexivity.
 Qed.
 
@@ -88,12 +90,14 @@ Theorem start_graph_model_ok : forall s nx,
   In (snd (start_graph_model s nx)) (g_edges (fst (fst (start_graph_model s nx)))).
 Proof.
   intros. rewrite start_graph_explicit. cbn [fst snd]. split; [|split].
-  - unfold start_ok. cbn [g_edges g_nodes g_ext start_edge e_label e_att].
+  - unfold start_ok. cbn [g_edges g_nodes g_ext g_elabs g_nlabs start_edge e_label e_att].
     rewrite !andb_true_iff. repeat split.
     + apply elabel_eqb_eq; auto.
     + apply (list_eqb_eq node_eqb node_eqb_eq); auto.
     + apply (list_eqb_eq Nat.eqb Nat.eqb_eq). unfold start_nodes. apply fresh_nodes_labels.
     + apply (nodupb_NoDup id_eqb id_eqb_eq). apply fresh_nodes_ids_nodup.
+    + apply (list_eqb_eq elabel_eqb elabel_eqb_eq); auto.
+    + apply (list_eqb_eq Nat.eqb Nat.eqb_eq); auto.
   - apply belowb_iff. split; cbn [g_nodes g_edges].
     + intros n Hn. apply fresh_nodes_spec in Hn. destruct Hn as [k [l [-> ?]]]. simpl. lia.
     + intros e [<-|[]]. simpl. lia.
@@ -125,7 +129,7 @@ Section Init.
   Proof. destruct t as [r a cs]. apply (wf_dtreeb_unfold _ _ _ _ HW). Qed.
 
   Lemma init_explicit : init_state t nx =
-    mkRS (mkGraph (start_nodes lhs nx) [start_edge lhs nx] [] [lhs]) (S (nx + length (l_type lhs))) []
+    mkRS (mkGraph (start_nodes lhs nx) [start_edge lhs nx] [] [lhs] (add_nlabs [] (l_type lhs))) (S (nx + length (l_type lhs))) []
          [mkTask [] (start_edge lhs nx) t] (start_names 0 (start_nodes lhs nx)) [(start_edge lhs nx, NStart 0)].
   Proof. unfold init_state. rewrite start_graph_explicit. reflexivity. Qed.
 
